@@ -190,6 +190,9 @@ pub struct InterruptInfo {
     pub irq_bit_watch: Option<serde_json::Value>,
     #[serde(default)]
     pub delivered_masks: Vec<u8>,
+    /// KEYI is re-asserted on the next keyboard scan while this latch is set.
+    #[serde(default)]
+    pub key_irq_latched: bool,
 }
 
 #[derive(Debug, Clone, Serialize, Deserialize)]
